@@ -6,6 +6,7 @@ from ..mirutil import (root_place, op_root, deep_root, origin, defuse, calls_in,
 from ..region import dominated_by_edges
 from ..lossy import decode_sites, check_site, repaired_decoders
 from .. import anchors as A
+from . import c20
 
 
 def r1_keys_survive_text_codec(cx):
@@ -189,6 +190,7 @@ RULES = [
     ("C18.R1", r1_keys_survive_text_codec, "keys decoded from text are length-restored before fixed-length use (base-62 drops leading zero bytes)"),
     ("C18.R2", r2_one_derivation, "one password derivation: identical PBKDF2 parameters at genkey and run time, no randomness"),
     ("C18.R3", r3_own_key_trusted_by_default, "own public key is trusted iff no trusted keys are configured"),
+    ("C18.R5", c20.r2_field_flow_matrix, "password and key texts reach the crypto configuration exactly as given, from file and command line alike (= C20.R2: every stored value is its source field, no transformation)"),
     ("C18.R4", r4_public_from_private, "public key is derived from the private key's pair"),
 ]
 
